@@ -32,6 +32,12 @@ pub fn compile(mods: &[(Vec<String>, String)], entry: &[String]) -> CompileOutco
 /// `order` permutes the order in which the modules (std and user) are registered with the heap:
 /// rotation by order/2, reversed when odd (0 = std first, then the user modules as given)
 pub fn compile_in_order(mods: &[(Vec<String>, String)], entry: &[String], order: usize) -> CompileOutcome {
+  compile_in_order_with_entries(mods, entry, &[], order)
+}
+
+/// like `compile_in_order`, with further entry modules (each has its own `Main.main`) handed to the
+/// compiler besides the one whose artefacts are returned
+pub fn compile_in_order_with_entries(mods: &[(Vec<String>, String)], entry: &[String], extra_entries: &[Vec<String>], order: usize) -> CompileOutcome {
   let mut heap = Heap::new();
   let mut handles = HashMap::new();
   let user_texts: Vec<&str> = mods.iter().map(|(_, t)| t.as_str()).collect();
@@ -50,7 +56,14 @@ pub fn compile_in_order(mods: &[(Vec<String>, String)], entry: &[String], order:
   }
   let entry_mr = heap.alloc_module_reference_from_string_vec(entry.to_vec());
   let entry_name = entry.join(".");
-  match guard(|| samlang_compiler::compile_sources(&mut heap, handles, vec![entry_mr], false)) {
+  let mut entries = vec![entry_mr];
+  for e in extra_entries {
+    entries.push(heap.alloc_module_reference_from_string_vec(e.clone()));
+  }
+  if order % 2 == 1 {
+    entries.reverse();
+  }
+  match guard(|| samlang_compiler::compile_sources(&mut heap, handles, entries, false)) {
     Err(e) => CompileOutcome::Panicked(e),
     Ok(Err(msg)) => CompileOutcome::Rejected(msg),
     Ok(Ok(res)) => {
